@@ -165,4 +165,32 @@ PROPERTIES = {
         "jobs": [J("C08_population", v, quick={"cases": 40, "shards": 5, "max_size": 40}, thorough={"cases": 1500, "shards": 5, "max_size": 60},
                    env={"VERIF_TMP": "/verif/build/run"}) for v in ("san", "san-cm0", "san-cm2")],
     },
+    "C04": {
+        "rule": "rapidcheck, two subs. 'direct': one generated cell of each class (placement up to 1000 sizes, um/unit scale), bulk modulus, "
+                "pressure cap (finite/INF), growth rate (negative/zero/positive, with or without sigma), division volume (finite/INF, with or "
+                "without sigma), minimum volume and target volume classes; 60 seeded draws of the random properties, then one public "
+                "apply_internal_forces(dt). 'history': a real solver over 2-5 non-interacting cells with generated growth rates, the harness "
+                "scaling cells below / above the minimum volume between iterations. Non-trivial = (direct) a clamp at V_min, a capped pressure "
+                "or a cell ready to divide; (history) a removal plus a clamp or a finite pressure cap; distinct = hash of the case.",
+        "min_nontrivial": 50,
+        "assumptions": ["pressure compared with the independent enclosed volume at K * 32 F eps (1 + D/s)^3 (error model of the cached volume)",
+                        "history sub: removal is required below 0.5 V_min and forbidden above 2 V_min of the volume before the iteration "
+                        "(remeshing inside the iteration may change the volume); pressure there uses the volume the cell cached at force time",
+                        "random draws are reproduced through hook H2 (seed source)"],
+        "jobs": [J("C04_cellcycle", quick={"cases": 250, "shards": 8, "max_size": 40}, thorough={"cases": 8000, "shards": 16, "max_size": 60},
+                   env={"VERIF_TMP": "/verif/build/run"})],
+    },
+    "C09": {
+        "rule": "rapidcheck, two subs. 'single': divide_cell on one mother (>= 60 triangles: deformed icospheres, refined solids, prisms, "
+                "bipyramids; um/unit scale; placement up to 100 sizes) with a forced axis of class {random, exactly +-x/+-y/+-z, within "
+                "1e-9 of an axis, plane through a mesh node, default longest axis}, l_min inside the band the mother's edges satisfy. "
+                "'population': cell_divider::run on 1-10 cells (epithelial / lumen / static) with none, some, most or all eligible, 1-8 "
+                "threads. Non-trivial = at least one successful division; distinct = hash of the case.",
+        "min_nontrivial": 30,
+        "assumptions": ["success is not required (the statement allows a clean failure): success rates per axis class are reported",
+                        "volume tolerance tau = 1.2 l_max / diameter clipped to [0.05, 0.6] (measured defects: median 5 %, max 26 % on 80-320 "
+                        "triangle mothers); sidedness tolerance l_max",
+                        "the mother is freshly initialised (no unused slots), so 'mother unchanged' is a bitwise comparison"],
+        "jobs": [J("C09_division", quick={"cases": 40, "shards": 16, "max_size": 40}, thorough={"cases": 2500, "shards": 16, "max_size": 60})],
+    },
 }
